@@ -7,6 +7,7 @@ the zoo, converts JSON <-> live objects.
 
 from __future__ import annotations
 
+import json
 import os
 import sys
 
@@ -77,6 +78,7 @@ class Ctx:
         self.spec = spec
         self.schema = real if real is not None else Schema(spec)
         self.model = SchemaModel(spec)
+        self._slice_cache: dict = {}
 
     # JSON -> live
     def node(self, j) -> Node:
@@ -89,6 +91,18 @@ class Ctx:
         """j = {"content": [...], "openStart": n, "openEnd": n}  (content may be [] -> explicit Slice)"""
         if j is None:
             return Slice.empty
+        # the same description always yields the SAME live object (within a process): payload objects are shared
+        # between cases exactly as an application would reuse a clipboard slice
+        key = json.dumps(j, sort_keys=True, default=repr)
+        hit = self._slice_cache.get(key)
+        if hit is not None:
+            return hit
+        if len(self._slice_cache) > 20000:
+            self._slice_cache.clear()
+        self._slice_cache[key] = sl = self._make_slice(j)
+        return sl
+
+    def _make_slice(self, j) -> Slice:
         return Slice(
             Fragment.from_json(self.schema, j.get("content") or None),
             j.get("openStart", 0),
